@@ -68,6 +68,9 @@ func genDesc(r *core.PRNG, maxData int) DescSpec {
 	switch r.Pick(5, 2, 2, 2, 2, 1, 1) {
 	case 0:
 		d = DescSpec{Kind: "user", Tag: uint8(r.Range(0x80, 0xfe)), Data: r.Bytes(r.Range(1, maxData))}
+		if r.Chance(1, 10) {
+			d.Data = nil // a descriptor with an empty body
+		}
 	case 1:
 		// tags below 0x80 that the library has no typed decoder for
 		tags := []uint8{0x02, 0x03, 0x09, 0x0b, 0x0c, 0x11, 0x1b, 0x38, 0x41, 0x5a, 0x66, 0x7b}
